@@ -69,6 +69,9 @@ def collect(only):
     return items
 
 
+PREVIOUS = {}  # --checks-only: rows of the stored table, by id (the test-suite and demonstration columns are taken from there)
+
+
 def one(item, tier, all_checks, stable):
     tree = tempfile.mkdtemp(prefix="vfmut_", dir="/tmp")
     os.rmdir(tree)
@@ -82,12 +85,19 @@ def one(item, tier, all_checks, stable):
         if r.returncode:
             res["error"] = "patch does not apply: " + r.stdout[-300:]
             return res
-        passed = run_tests(tree)
-        if not stable <= passed:  # tests/unit/functions/test_fdd.py::test_EFDD_mpe[cor] draws unseeded random data: retry once
-            passed |= run_tests(tree)
-        res["stable_tests_still_pass"] = stable <= passed
-        res["stable_tests_lost"] = sorted(stable - passed)[:5]
-        if item["demo"]:
+        prev = PREVIOUS.get(item["id"])
+        if prev is not None and "stable_tests_still_pass" in prev:
+            # only the checks changed since the stored run: the library-side columns (tests with the change, demonstration) are its
+            for k_ in ("stable_tests_still_pass", "stable_tests_lost", "demo_fails_with_change", "demo_passes_without"):
+                if k_ in prev:
+                    res[k_] = prev[k_]
+        else:
+            passed = run_tests(tree)
+            if not stable <= passed:  # tests/unit/functions/test_fdd.py::test_EFDD_mpe[cor] draws unseeded random data: retry once
+                passed |= run_tests(tree)
+            res["stable_tests_still_pass"] = stable <= passed
+            res["stable_tests_lost"] = sorted(stable - passed)[:5]
+        if item["demo"] and "demo_passes_without" not in res:
             env = dict(os.environ, MPLBACKEND="Agg", PYTHONDONTWRITEBYTECODE="1")
             a = sh([PY, item["demo"]], env=dict(env, PYTHONPATH=os.path.join(tree, "src")), timeout=1800, cwd=tempfile.gettempdir())
             b = sh([PY, item["demo"]], env=dict(env, PYTHONPATH=os.path.join(REPO, "src")), timeout=1800, cwd=tempfile.gettempdir())
@@ -122,10 +132,13 @@ def main():
     ap.add_argument("--jobs", type=int, default=3)
     ap.add_argument("--all-checks", action="store_true")
     ap.add_argument("--no-write", action="store_true")
+    ap.add_argument("--checks-only", action="store_true", help="re-run only the checks; tests / demonstration columns are taken from the stored results.json")
     ap.add_argument("--merge", action="store_true", help="with --only: replace the rows of the re-run changes in results.json / RESULTS.md")
     a = ap.parse_args()
     items = collect(a.only)
     stable = stable_set()
+    if a.checks_only:
+        PREVIOUS.update({r["id"]: r for r in json.load(open(os.path.join(V, "selftest", "results.json")))["results"]})
     with ThreadPoolExecutor(a.jobs) as ex:
         results = list(ex.map(lambda it: one(it, a.tier, a.all_checks, stable), items))
     for r in results:
